@@ -1,6 +1,11 @@
 (* Props/C08.v — Query meaning is invariant under spelling; string literals are opaque.
    ONLY statements: each closed by [exact <lemma>] with Print Assumptions beneath. *)
+From RBQL Require Import Parser_Tokens_Proofs Parser_TokensLocate_Proofs Parser_TokensRender_Proofs Parser_TokensQuery_Proofs
+  Parser_TokensMain_Proofs Parser_TokensSpell_Proofs Parser_TokensJoin_Proofs Parser_TokensFrom_Proofs Parser_TokensExamples_Proofs.
 From RBQL Require Import Base Parser Parser_Proofs Parser_Combine_Proofs Parser_Spelling_Proofs.
+From Coq Require Import Permutation.
+(* [render] of the literal-separation theorems is Parser_Proofs.render; the token-spelling text is [trender] *)
+Notation trender := Parser_TokensQuery_Proofs.render.
 Local Open Scope N_scope.
 
 (* C08_cleanup_invariant. A query text is a list of physical lines (each without LF) joined by LF.
@@ -120,21 +125,19 @@ Proof.
 Qed.
 Print Assumptions C08_combine_needs_hypothesis.
 
-(* C08_token_spelling - full statement, NOT proved in full (kept visible as the goal):
-     forall q sigma, (no expression word of q is a statement keyword) ->
-       separate_actions fl false (render_tokens sigma q) = Ok (normalise q)
+(* C08_token_spelling - proved below (section "token spelling", end of this file) as
+     forall q sigma, wf_aq q -> sigma_ok sigma q -> separate_actions fl with_from (render sigma q) = Ok (actions_of sigma q)
    for every spelling choice sigma = (case of every keyword letter, permutation of the clauses after SELECT / UPDATE,
-   TOP vs LIMIT, JOIN vs INNER JOIN, LEFT vs LEFT OUTER JOIN, FROM a, UPDATE a SET).
-   What IS proved (Parser_Spelling_Proofs.v) is its keyword-letter-case component, in a stronger form - the ASCII case of
-   ANY letter of the text, keyword or not, at character level, no hypothesis on the words:
+   number of spaces, JOIN vs INNER JOIN, LEFT vs LEFT OUTER JOIN, explicit ASC, UPDATE SET vs UPDATE), with the corollaries
+   TOP = LIMIT, FROM a, UPDATE a SET and the ON-condition spellings.
+   The two theorems that follow are the older, character-level letter-case component (the ASCII case of ANY letter of the
+   text, keyword or not, no hypothesis on the words):
      C08_locate_case_invariant      the statements found and their positions are the same;
      C08_case_spelling_partial      separate_actions gives the same error tag, or action records with the same
                                     statements, TOP value, DISTINCT [COUNT] flags, ASC/DESC flag and join spelling whose
                                     clause texts are equal up to the same letter case - hence identical when only
                                     keywords were respelled. (The WITH modifier is excluded: the code matches its name
-                                    case-sensitively, [a-z].)
-   Missing: clause-order permutation and the interchangeable spellings; they are validated by the correspondence runs
-   (metamorphic public-path check and model tie on every generated spelling) only. *)
+                                    case-sensitively, [a-z].) *)
 Theorem C08_locate_case_invariant : forall (fl : lang) (with_from : bool) (s s' : str), case_rel s s' ->
   locate_statements fl with_from s = locate_statements fl with_from s'.
 Proof. exact locate_case_invariant. Qed.
@@ -157,3 +160,151 @@ Proof.
   repeat split; try assumption. exists a, a'. split; assumption.
 Qed.
 Print Assumptions C08_case_spelling_nonvacuous.
+
+(* ================================================================== token spelling *)
+(* An abstract query [aq] (Parser_TokensQuery_Proofs.v): SELECT [TOP digits] [DISTINCT [COUNT]] list | UPDATE assignments;
+   optional WHERE, ORDER BY (text, descending?), GROUP BY, LIMIT, EXCEPT, JOIN (inner | left | strict left, text), FROM.
+   A spelling choice [sigma]: the order of the clauses, the spelled words of every keyword, the number of spaces at
+   every place where the regexes allow several, INNER / OUTER, explicit ASC, UPDATE SET.  [render sigma q] is the text.
+   [wf_aq fl with_from q] (boolean) asks of every clause text T:  non-empty and no leading / trailing character the
+   strip removes (edge_ok);  no statement that locate_statements searches starts after a space of " T " and no
+   proper prefix of a multi-word statement (LEFT, STRICT LEFT, INNER, ORDER, GROUP ...) ends T (quiet_all);  T does not
+   end with "(" lower-case{4,20} ")" (wt_ok: the WITH-modifier regex; sufficient only);  a sort key does not end with
+   the word ASC / DESC;  the select list does not start with TOP digits / DISTINCT when the query has none;  FROM only
+   when the FROM group is searched.  [sigma_ok sigma q]: the order lists exactly the clauses of q once each, every
+   keyword is spelled with its own letters in some case.  All conditions are computed by the model's own scanners. *)
+Theorem C08_token_spelling : forall (fl : lang) (with_from : bool) (s : sigma) (q : aq),
+  wf_aq fl with_from q = true -> sigma_ok s q ->
+  separate_actions fl with_from (trender s q) = Ok (actions_of s q).
+Proof. exact token_spelling. Qed.
+Print Assumptions C08_token_spelling.
+
+(* the same with the spelling-dependent parts of the record mapped to what the engine reads: the join KIND
+   (joiner_type) and the record limit (find_top): the right-hand side does not mention sigma *)
+Theorem C08_token_spelling_norm : forall (fl : lang) (with_from : bool) (s : sigma) (q : aq),
+  wf_aq fl with_from q = true -> sigma_ok s q ->
+  norm_res fl (separate_actions fl with_from (trender s q)) = Ok (nact fl q).
+Proof. exact token_spelling_norm. Qed.
+Print Assumptions C08_token_spelling_norm.
+
+Theorem C08_spelling_invariant : forall (fl : lang) (with_from : bool) (s1 s2 : sigma) (q : aq),
+  wf_aq fl with_from q = true -> sigma_ok s1 q -> sigma_ok s2 q ->
+  norm_res fl (separate_actions fl with_from (trender s1 q)) = norm_res fl (separate_actions fl with_from (trender s2 q)).
+Proof. exact spelling_invariant. Qed.
+Print Assumptions C08_spelling_invariant.
+
+(* locate_statements finds exactly the rendered statements, at the rendered positions *)
+Theorem C08_locate_rendered : forall (fl : lang) (with_from : bool) (s : sigma) (q : aq),
+  wf_aq fl with_from q = true -> sigma_ok s q ->
+  locate_statements fl with_from (trender s q) = Ok (target_of s q).
+Proof. exact locate_rendered. Qed.
+Print Assumptions C08_locate_rendered.
+
+Theorem C08_clause_order_invariant : forall (fl : lang) (with_from : bool) (s : sigma) (q : aq) (l : list ck),
+  wf_aq fl with_from q = true -> sigma_ok s q -> Permutation (s_order s) l ->
+  separate_actions fl with_from (trender (with_order s l) q) = separate_actions fl with_from (trender s q).
+Proof. exact clause_order_invariant. Qed.
+Print Assumptions C08_clause_order_invariant.
+
+Theorem C08_extra_spaces_invariant : forall (fl : lang) (with_from : bool) (s : sigma) (q : aq)
+  (lead : ck -> nat) (gaps : ck -> list nat) (sp : ck -> nat) (hk tg tsp dg dsp ssp og : nat),
+  wf_aq fl with_from q = true -> sigma_ok s q ->
+  separate_actions fl with_from (trender (respace s lead gaps sp hk tg tsp dg dsp ssp og) q)
+  = separate_actions fl with_from (trender s q).
+Proof. exact extra_spaces_invariant. Qed.
+Print Assumptions C08_extra_spaces_invariant.
+
+Theorem C08_keyword_case_invariant : forall (fl : lang) (with_from : bool) (s : sigma) (q : aq)
+  (ws : ck -> list str) (hw top dist count setw dirw : str),
+  wf_aq fl with_from q = true -> sigma_ok s q -> sigma_ok (respell s ws hw top dist count setw dirw) q ->
+  separate_actions fl with_from (trender (respell s ws hw top dist count setw dirw) q) = separate_actions fl with_from (trender s q).
+Proof. exact keyword_case_invariant. Qed.
+Print Assumptions C08_keyword_case_invariant.
+
+Theorem C08_join_spelling_equiv : forall (fl : lang) (with_from : bool) (s1 s2 : sigma) (q : aq),
+  wf_aq fl with_from q = true -> sigma_ok s1 q -> sigma_ok s2 q ->
+  norm_res fl (separate_actions fl with_from (trender s1 q)) = norm_res fl (separate_actions fl with_from (trender s2 q))
+  /\ jk_of JOIN = jk_of INNER_JOIN /\ jk_of LEFT_JOIN = jk_of LEFT_OUTER_JOIN.
+Proof. exact join_spelling_equiv. Qed.
+Print Assumptions C08_join_spelling_equiv.
+
+(* SELECT TOP n ...  =  SELECT ... LIMIT n  (both queries well formed: see C08_top_limit_needs_wf) *)
+Theorem C08_top_limit_equiv : forall (fl : lang) (with_from : bool) (s1 s2 : sigma) (q : aq), q_limit q = None ->
+  wf_aq fl with_from q = true -> wf_aq fl with_from (top_to_limit q) = true ->
+  sigma_ok s1 q -> sigma_ok s2 (top_to_limit q) ->
+  norm_res fl (separate_actions fl with_from (trender s1 q))
+  = norm_res fl (separate_actions fl with_from (trender s2 (top_to_limit q))).
+Proof. exact top_limit_equiv. Qed.
+Print Assumptions C08_top_limit_equiv.
+
+(* FROM a written between any two clauses (or at the end) of a SELECT query, when the text has no other FROM a:
+   remove_redundant_input_table_name leaves the rendered query, with one space where FROM a was *)
+Theorem C08_from_a_redundant : forall (fl : lang) (s : sigma) (q : aq) (l1 l2 : list ck) (a : nat) (fw : str) (g : nat) (c : ch),
+  wf_aq fl false q = true -> sigma_ok s q -> s_order s = l1 ++ l2 ->
+  (exists top d cn sel, q_kind q = QSelect top d cn sel) ->
+  case_rel K_FROM fw -> ci_eq fl 65 c = true ->
+  fa_quiet fl (trender (lead0 s l2) q ++ (match l2 with [] => [SP] | _ :: _ => [] end)) = true ->
+  separate_actions fl false (remove_redundant_input_table_name fl (render_from s q l1 l2 a fw g c))
+  = separate_actions fl false (trender s q).
+Proof. exact from_a_redundant. Qed.
+Print Assumptions C08_from_a_redundant.
+
+Theorem C08_update_set_redundant : forall (fl : lang) (s : sigma) (q : aq) (asg : str) (a : nat) (c : ch) (b : nat),
+  wf_aq fl false q = true -> sigma_ok s q -> q_kind q = QUpdate asg -> ci_eq fl 65 c = true ->
+  fa_quiet fl (render_upd_a s q asg a c b) = true ->
+  separate_actions fl false (remove_redundant_input_table_name fl (render_upd_a s q asg a c b))
+  = separate_actions fl false (trender s q).
+Proof. exact update_set_redundant. Qed.
+Print Assumptions C08_update_set_redundant.
+
+(* the ON condition: = or ==, any spaces around it, ON / AND in any case (JS: &&), any spaces around them *)
+Theorem C08_join_on_equiv : forall (fl : lang) (tid : str) (a : nat) (onw : str) (b : nat) (ps : list jpair),
+  forallb not_sp tid = true -> edge_ok fl (render_join tid a onw b ps) = true ->
+  case_rel K_ON onw -> ps <> [] -> Forall (jpair_ok fl) ps ->
+  parse_join_expression fl (render_join tid a onw b ps) = Ok (tid, map (fun p => (jp_l p, jp_r p)) ps).
+Proof. exact join_on_equiv. Qed.
+Print Assumptions C08_join_on_equiv.
+
+(* non-vacuity: a query with every clause, two very different spellings (texts in Parser_TokensExamples_Proofs.v) *)
+Example C08_token_spelling_nonvacuous :
+  wf_aq LPy false ex_q = true /\ wf_aq LJs false ex_q = true /\
+  sigma_ok ex_s1 ex_q /\ sigma_ok ex_s2 ex_q /\ trender ex_s1 ex_q <> trender ex_s2 ex_q /\
+  separate_actions LPy false (trender ex_s1 ex_q) = Ok (actions_of ex_s1 ex_q) /\
+  separate_actions LPy false (trender ex_s2 ex_q) = Ok (actions_of ex_s2 ex_q) /\
+  norm LPy (actions_of ex_s1 ex_q) = norm LPy (actions_of ex_s2 ex_q).
+Proof.
+  destruct ex_wf as [W1 W2]. destruct ex_sigmas as [S1 [S2 D]]. destruct ex_same_by_computation as [C1 [C2 _]].
+  split; [exact W1|]. split; [exact W2|]. split; [exact S1|]. split; [exact S2|]. split; [exact D|]. split; [exact C1|]. split; [exact C2|].
+  rewrite (norm_actions_of LPy ex_s1 ex_q), (norm_actions_of LPy ex_s2 ex_q). reflexivity.
+Qed.
+Print Assumptions C08_token_spelling_nonvacuous.
+
+(* the text conditions cannot be dropped: a clause text containing  where  as a word changes the parse *)
+Example C08_clause_ok_needed :
+  sigma_ok (std_sigma bad_q1 [CGroup]) bad_q1 /\ wf_aq LPy false bad_q1 = false /\
+  separate_actions LPy false (trender (std_sigma bad_q1 [CGroup]) bad_q1) <> Ok (actions_of (std_sigma bad_q1 [CGroup]) bad_q1).
+Proof. destruct clause_ok_needed as [A [B [_ [C _]]]]. split; [exact A|]. split; [exact B | exact C]. Qed.
+Print Assumptions C08_clause_ok_needed.
+
+(* REFUTED without the "straddle" part of quiet_all: the two clause orders of
+     SELECT a1 JOIN b ON a1 == b1 WHERE a2 in left   /   SELECT a1 WHERE a2 in left JOIN b ON a1 == b1
+   mean different queries (inner join vs LEFT join), although no clause text contains a statement keyword as a word *)
+Example C08_clause_order_refuted :
+  sigma_ok (std_sigma bad_q2 [CJoin; CWhere]) bad_q2 /\ sigma_ok (std_sigma bad_q2 [CWhere; CJoin]) bad_q2 /\
+  wf_aq LPy false bad_q2 = false /\
+  norm_res LPy (separate_actions LPy false (trender (std_sigma bad_q2 [CJoin; CWhere]) bad_q2))
+  <> norm_res LPy (separate_actions LPy false (trender (std_sigma bad_q2 [CWhere; CJoin]) bad_q2)) /\
+  (forall fl st', In st' (all_stmts false) -> find_all (kw_match fl (stmt_words st')) (SP :: nth 0 [oget (q_where bad_q2)] [] ++ [SP]) = []).
+Proof.
+  destruct clause_order_refuted as [A [B [C [_ [_ [D [[n [E [F _]]] G]]]]]]].
+  split; [exact A|]. split; [exact B|]. split; [exact C|]. split; [|exact G].
+  rewrite D, E. intro H. injection H as H. rewrite <- H in F. vm_compute in F. discriminate F.
+Qed.
+Print Assumptions C08_clause_order_refuted.
+
+Example C08_top_limit_needs_wf :
+  wf_aq LPy false bad_q4 = true /\ wf_aq LPy false (top_to_limit bad_q4) = false /\
+  norm_res LPy (separate_actions LPy false (trender (std_sigma bad_q4 []) bad_q4))
+  <> norm_res LPy (separate_actions LPy false (trender (std_sigma (top_to_limit bad_q4) [CLimit]) (top_to_limit bad_q4))).
+Proof. destruct top_limit_needs_wf as [A [B [_ [_ C]]]]. split; [exact A|]. split; [exact B | exact C]. Qed.
+Print Assumptions C08_top_limit_needs_wf.
